@@ -356,6 +356,7 @@ type vf6Output struct {
 	// error is returned as a failing target would cause): nothing is stored
 	failSnapshot bool
 	interrupted  bool
+	noWait       bool
 	// fault injection: the n-th call (1-based) of the named bookkeeping method fails
 	failReset    int
 	failSetRunId int
@@ -413,6 +414,10 @@ func (o *vf6Output) Send(ctx context.Context, reader ChannelReader) error {
 	}
 	want := o.want
 	o.mu.Unlock()
+	if o.noWait {
+		// outside the theorems' hypotheses only the decision is compared: nothing to wait for
+		return nil
+	}
 
 	buf := make([]byte, want)
 	done := make(chan struct{})
@@ -762,6 +767,9 @@ func (h *vf6H) again(attempt int) bool {
 		}
 		// the repeat hit the limit too: taken as the behaviour of the code under test
 		h.s.Count("wait_limit_hit_on_every_attempt")
+		if len(s.ops) > 0 {
+			h.t.Logf("wait limit hit on every attempt: %v", s.ops[len(s.ops)-1])
+		}
 		h.confirmed++
 		if h.confirmed >= 3 {
 			h.patience.Store(1500)
@@ -873,7 +881,7 @@ func (h *vf6H) round(c *vf6Case, inner Channel, replay map[string]interface{}, r
 
 	// ---- the real input against double, proxy and recording output
 	proxy := &vf6Chan{inner: inner}
-	out := &vf6Output{sp: c.sp, final: final, proxy: proxy, patience: &h.patience, missed: &h.missed}
+	out := &vf6Output{sp: c.sp, final: final, proxy: proxy, patience: &h.patience, missed: &h.missed, noWait: !c.wf()}
 	switch h.fault {
 	case "reset1":
 		out.failReset = 1
